@@ -1,4 +1,5 @@
 import Falcon.Model.SignSkel
+import Falcon.Lemmas.SignRefine
 
 /-!
 # C08 — every signature carries a fresh salt
@@ -32,5 +33,32 @@ theorem salt_in_signature (salt s : List Nat) (h : salt.length = 40) :
   simp [KeyCodec.sigToBytes, ← h]
 
 example : saltOf (List.range 100) = List.range 40 := by decide
+
+/-- **on the complete model of `sign`** (`SignFlt.sign`: hash, target, fast-Fourier sampler, floating-point norm test,
+    rounding, compression and both retry loops; compared byte for byte with the real `sign`): for both variants, every
+    key, message and generator stream, however many times the norm test or the compression made it retry, the salt of
+    the returned signature is the first 40 bytes the generator yielded in this call — a retry never draws a new salt
+    and never reuses an old one — and decoding the returned bytes gives exactly that salt -/
+theorem model_sign_salt_is_the_first_40_draws (chk : Bool) (N L : Nat)
+    (hNL : (N = 512 ∧ L = 625) ∨ (N = 1024 ∧ L = 1239)) (b0 : List (List Int)) (msg stream sig : List Nat)
+    (a b : Nat) (zs : List Int) (h : SignFlt.sign chk N b0 msg stream = .ok (.ok (sig, a, b, zs))) :
+    ∃ body, sig = KeyCodec.sigToBytes (stream.take 40) body ∧
+      KeyCodec.sigFromBytes N sig = .ok (.ok (stream.take 40, body)) := by
+  obtain ⟨body, h1, _, h3⟩ := SignFlt.sign_wellformed chk N L hNL b0 msg stream sig a b zs h
+  exact ⟨body, h1, h3⟩
+
+/-- so two calls whose generators yield different first 40 bytes return signatures with different salts, whatever the
+    keys and messages -/
+theorem model_sign_distinct_streams_distinct_salts (chk : Bool) (N L : Nat)
+    (hNL : (N = 512 ∧ L = 625) ∨ (N = 1024 ∧ L = 1239)) (b0 b0' : List (List Int)) (msg msg' st st' sig sig' : List Nat)
+    (a b a' b' : Nat) (zs zs' : List Int) (hd : st.take 40 ≠ st'.take 40)
+    (h : SignFlt.sign chk N b0 msg st = .ok (.ok (sig, a, b, zs)))
+    (h' : SignFlt.sign chk N b0' msg' st' = .ok (.ok (sig', a', b', zs'))) : sig ≠ sig' := by
+  obtain ⟨body, _, hp⟩ := model_sign_salt_is_the_first_40_draws chk N L hNL b0 msg st sig a b zs h
+  obtain ⟨body', _, hp'⟩ := model_sign_salt_is_the_first_40_draws chk N L hNL b0' msg' st' sig' a' b' zs' h'
+  intro e
+  rw [e, hp'] at hp
+  simp only [Res.ok.injEq, Except.ok.injEq, Prod.mk.injEq] at hp
+  exact hd hp.1.symm
 
 end Falcon.Props.C08
